@@ -642,7 +642,9 @@ func validatedValue(w *World, f *ssa.Function, v ssa.Value, depth int) bool {
 	}
 	failingEdge := func(blk *ssa.BasicBlock) bool {
 		for _, s := range blk.Succs {
-			reach := reachableFrom(s, nil)
+			// path-sensitive in the nil-ness of error variables: `err = sentinel` followed by a
+			// single `if err != nil { return ..., err }` is a failing side
+			reach := simulateFrom(s, blk, nil, noOracle)
 			any, all := false, true
 			for _, ret := range returnsOf(f) {
 				if reach[ret.Block()] {
@@ -819,34 +821,7 @@ func ruleUpperBoundForm(w *World, r *Report, cl map[*ssa.Function]bool) {
 			if k, ok := constInt(a.Y); !ok || k != 1 {
 				return
 			}
-			ord[scope]++
 			n++
-			// stable identity: kind of the scaled bound and shape of the shift expression (kinds as leaves)
-			ke := kindsFor(w)
-			kindOf := func(v ssa.Value) string {
-				if av := ke.Eval(v); av != nil && av.Scalar != 0 {
-					return av.Scalar.String()
-				}
-				return "?"
-			}
-			var shape func(v ssa.Value, d int) string
-			shape = func(v ssa.Value, d int) string {
-				v = resolve(v)
-				if k, ok := constInt(v); ok {
-					return fmt.Sprint(k)
-				}
-				if b, ok := v.(*ssa.BinOp); ok && d < 3 {
-					return "(" + shape(b.X, d+1) + b.Op.String() + shape(b.Y, d+1) + ")"
-				}
-				if u, ok := v.(*ssa.UnOp); ok && d < 3 && u.Op == token.SUB {
-					return "-" + shape(u.X, d+1)
-				}
-				// the key names the site by the structure of its shift amount only: it must not
-				// change when the operands move into fields, parameters or other variables
-				return "·"
-			}
-			_ = kindOf
-			key := fmt.Sprintf("UPPER-BOUND-FORM / %s / scale(·+1, %s) - 1", scope, shape(call.Call.Args[1], 0))
 			d := resolve(call.Call.Args[1])
 			good := false
 			if k, ok := constInt(d); ok && k >= 0 {
@@ -858,7 +833,7 @@ func ruleUpperBoundForm(w *World, r *Report, cl map[*ssa.Function]bool) {
 					continue
 				}
 				c, ok := i.Cond.(*ssa.BinOp)
-				if !ok || !(c.Op == token.GTR || c.Op == token.GEQ) || resolve(c.X) != d {
+				if !ok || !(c.Op == token.GTR || c.Op == token.GEQ) || !(resolve(c.X) == d || equivValue(resolve(c.X), d)) {
 					continue
 				}
 				if k, ok := constInt(c.Y); !ok || k != 0 {
@@ -868,6 +843,15 @@ func ruleUpperBoundForm(w *World, r *Report, cl map[*ssa.Function]bool) {
 					good = true
 				}
 			}
+			// identity of a site: package, guarded or not, and order (functions by name, then
+			// position): it must not change when the operands of the shift move into
+			// fields, parameters, tables or helpers
+			kind := "unguarded form"
+			if good {
+				kind = "guarded form"
+			}
+			ord[scope+kind]++
+			key := fmt.Sprintf("UPPER-BOUND-FORM / %s / %s#%d", scope, kind, ord[scope+kind])
 			if good {
 				r.Add(Obligation{Rule: "UPPER-BOUND-FORM", Key: key, Pos: w.Pos(sub.Pos()), Status: Discharged, Detail: "in " + name + ": guarded by shift > 0", Canary: w.IsCanary(f)})
 			} else {
@@ -1277,6 +1261,25 @@ func hasRangeValidation(w *World, f *ssa.Function, depth int, seen map[*ssa.Func
 		walk(v, 0)
 		return found
 	}
+	// a closure of f that tests a value against a 2^zoom quantity (the validation of a
+	// callback-driven computation records its error in a captured variable)
+	var anon func(g *ssa.Function) bool
+	anon = func(g *ssa.Function) bool {
+		for _, a := range g.AnonFuncs {
+			for _, blk := range a.Blocks {
+				if _, _, ifi := ifSuccs(blk); ifi != nil && pow(ifi.Cond) {
+					return true
+				}
+			}
+			if anon(a) {
+				return true
+			}
+		}
+		return false
+	}
+	if anon(f) {
+		return true
+	}
 	for _, blk := range f.Blocks {
 		_, _, ifi := ifSuccs(blk)
 		if ifi == nil || !pow(ifi.Cond) {
@@ -1284,7 +1287,7 @@ func hasRangeValidation(w *World, f *ssa.Function, depth int, seen map[*ssa.Func
 		}
 		// a failing side (or, in a bool validator, a false side)
 		for _, s := range blk.Succs {
-			reach := reachableFrom(s, nil)
+			reach := simulateFrom(s, blk, nil, noOracle)
 			any, all := false, true
 			for _, ret := range returnsOf(f) {
 				if reach[ret.Block()] {
